@@ -20,6 +20,7 @@ import (
 	"os"
 	"runtime/pprof"
 	"sort"
+	"strings"
 	"sync/atomic"
 	"time"
 
@@ -145,6 +146,13 @@ func runCase(f *codecs.Format, w *witness, st *stats) {
 	fail := func(class, what string, fi, pi int, extra func(*witness)) {
 		ww := *w
 		ww.Frame, ww.Packet, ww.Detail = fi, pi, what
+		if p.Variant == "lsf3" && (strings.HasPrefix(class, "roundtrip/") || class == "decode-error") {
+			// one root cause (the frame length the decoder derives from an MPEG-2 layer III header is
+			// twice the ISO 13818-3 one) shows as lost, merged, differing units or a parse error
+			// depending on the grouping: one key for all of them
+			what = "[" + class + "] " + what
+			class = "roundtrip/mpeg2-layer3-frame-length"
+		}
 		if extra != nil {
 			extra(&ww)
 		}
